@@ -519,6 +519,27 @@ func ruleOU12(c *Ctx) {
 	c.check(impure == "", c.Name(df), "pure-derivation", c.FnPos(df), "the file URL is computed from the project directory and the recorded path alone",
 		"the file URL derivation consults the file system or the process ("+impure+"): file_url is no longer the URL of the recorded path under the project root - a symlinked project directory, a symlinked result or a link retargeted later gives a URL outside the root, or one that changes between two reads of the same log")
 	c.check(usesStruct, c.Name(df), "url-from-struct", c.FnPos(df), "the URL text is (*url.URL).String() of a value carrying the path as data", "the file URL is not produced by url.URL.String(): path characters are not escaped as data")
+	// the bytes of the path are data too: a textual rewrite of the path (strings.ReplaceAll/Replace/Map, a Replacer) is
+	// something a POSIX file name does not survive - `a\b.txt` is one name, not a directory and a file. Such a rewrite is
+	// acceptable only under a test that establishes what kind of path this is (a Windows drive path); filepath.ToSlash
+	// is the platform's own, a no-op where the separator is already '/'
+	rewrite := ""
+	for _, g := range append([]*ssa.Function{df}, c.unitOf(df)...) {
+		for _, call := range callsNamed(g, "strings.ReplaceAll", "strings.Replace", "strings.Map", "(*strings.Replacer).Replace", "strings.Trim", "strings.TrimLeft", "strings.TrimRight", "strings.ToLower", "strings.ToUpper") {
+			guarded := false
+			for _, bf := range branchFacts(g) {
+				if len(bf.A.Env) == 0 && (bf.E.To() == call.Block() || bf.E.To().Dominates(call.Block())) && bf.E.From.Dominates(call.Block()) {
+					guarded = true
+				}
+			}
+			curEnv = nil
+			if !guarded {
+				rewrite = calleeFullName(call.Common()) + " at " + c.Pos(call.Pos())
+			}
+		}
+	}
+	c.check(rewrite == "", c.Name(df), "path-bytes-not-rewritten", c.FnPos(df), "no unconditional textual rewrite of the path on the way into the URL",
+		"the path is rewritten unconditionally ("+rewrite+") before it becomes the URL: a byte that is part of a file name on this platform (a backslash on POSIX) is turned into something else, and file_url names a different file than the one whose sha256 was recorded")
 }
 
 // startDirUses follows the value of the --dir option forward (phis, local variables, helper parameters and results) and
